@@ -396,6 +396,11 @@ def dec_sarif(b):
                 raise Malformed("sarif: ruleIndex does not point at ruleId")
             if r.get("level", "warning") not in ("error", "warning", "note", "none"):   # "warning" is the default and is omitted
                 raise Malformed("sarif: level")
+            # the severity is carried twice in a SARIF result: as properties.issue_severity and as the standard `level` consumers act on; the two must
+            # tell the same story (found by tools/mutation: negating the LOW branch of level_from_severity survived)
+            want_level = {"HIGH": "error", "MEDIUM": "warning", "LOW": "note"}.get(r["properties"]["issue_severity"], "warning")
+            if r.get("level", "warning") != want_level:
+                raise Malformed("sarif: level %r does not render severity %r" % (r.get("level", "warning"), r["properties"]["issue_severity"]))
             recs.append((r["ruleId"], uri_to_path(pl["artifactLocation"]["uri"]), reg["startLine"],
                          r["properties"]["issue_severity"], r["properties"]["issue_confidence"], r["message"]["text"]))
             regions.append(dict(startLine=reg["startLine"], endLine=reg["endLine"], startColumn=reg["startColumn"], endColumn=reg["endColumn"],
